@@ -110,11 +110,7 @@ var stateIDs int64
 
 func newStateID() int64 { return atomic.AddInt64(&stateIDs, 1) }
 
-func (st *State) noteRead(blk int) {
-	if st.fp != nil {
-		st.fp.Reads[blk] = true
-	}
-}
+func (st *State) noteRead(blk int) {}
 func (st *State) noteWrite(blk int) {
 	if st.fp != nil {
 		st.fp.Writes[blk] = true
